@@ -59,13 +59,14 @@ PROBES = {"stale_accelerator": 1, "mismatched_accelerator": 1,
           "two_octopus_merges": 1,
           "refs_read_during_packed_refs_rewrite": 1,
           "writer_handle_queried": 1,
-          "accelerators_written_while_shallow": 1}
+          "accelerators_written_while_shallow": 1,
+          "git_style_packed_refs": 1, "tag_moved_after_packing": 1}
 MIN_BUDGET = 120
 
 ACCEL = ["commit-graph", "midx", "bitmap", "packed-refs"]
 STALE = ["commit_loose", "add_pack", "pack_loose", "repack", "gc_now",
          "delete_ref", "move_ref", "shallow", "graft", "delete_then_gc",
-         "unshallow"]
+         "unshallow", "retag"]
 
 
 FAULT_COUNTERS = {
@@ -106,6 +107,9 @@ def gen_plan(seed, tier):
                            for _ in range(rng.randint(1, 3))],
                 "reads": rng.randint(1, 4)}]),
             "keep_writer": rng.random() < 0.5,
+            # packed-refs as C git writes it: "peeled fully-peeled" header
+            # and a ^line under every annotated tag
+            "git_packed": rng.random() < 0.4,
             # the accelerators are written while the repository is shallow at
             # some commit (as in a shallow clone); 'unshallow' lifts it later
             "shallow_first": rng.random() < 0.25,
@@ -319,6 +323,26 @@ def run_plan(plan):
         acc = plan["accel"]
         if "packed-refs" in acc:
             r.refs.pack_refs(all=True)
+            if plan.get("git_packed"):
+                from dulwich.object_store import peel_sha
+                prp = os.path.join(rp, ".git", "packed-refs")
+                with open(prp, "rb") as f:
+                    lines = [ln for ln in f.read().splitlines()
+                             if ln and not ln.startswith((b"#", b"^"))]
+                outl = [b"# pack-refs with: peeled fully-peeled sorted "]
+                for ln in sorted(lines, key=lambda x: x.split(b" ", 1)[1]):
+                    outl.append(ln)
+                    sha = ln.split(b" ", 1)[0]
+                    try:
+                        un, pe = peel_sha(r.object_store, sha)
+                    except KeyError:
+                        continue
+                    if pe.id != sha:
+                        outl.append(b"^" + pe.id)
+                with open(prp + ".new", "wb") as f:
+                    f.write(b"\n".join(outl) + b"\n")
+                os.rename(prp + ".new", prp)
+                stats["probe:git_style_packed_refs"] = 1
         if "commit-graph" in acc:
             r.object_store.write_commit_graph()
         if "midx" in acc and list(r.object_store.packs):
@@ -365,6 +389,7 @@ def run_plan(plan):
         extra_ids = []
         graft = None
         for si, step in enumerate(plan["stale"]):
+          try:
             stats["probe:stale_accelerator"] = 1
             if step in ("commit_loose", "add_pack"):
                 hb = H.gen_history(u, rng, rng.randint(1, 2),
@@ -424,6 +449,22 @@ def run_plan(plan):
                         rng.choice(alive)
                     w.refs[mn] = mv
                     model_refs[mn] = mv
+            elif step == "retag":
+                cands = sorted(k for k in w.refs.allkeys()
+                               if k.startswith(b"refs/tags/"))
+                alive = [c for c in commits if c in w.object_store]
+                if cands and alive:
+                    tn = rng.choice(cands)
+                    tv = rng.choice(alive)
+                    if rng.random() < 0.6:
+                        # tag -f -a: a new annotated tag under the same name
+                        tv = u.tag(tn.rsplit(b"/", 1)[1], tv,
+                                   1700300000 + si)
+                        u.add_to_store(w.object_store, [tv])
+                        extra_ids.append(tv)
+                    w.refs[tn] = tv
+                    model_refs[tn] = tv
+                    stats["probe:tag_moved_after_packing"] = 1
             elif step == "shallow":
                 c = rng.choice(commits)
                 if c not in w.object_store:
@@ -457,6 +498,12 @@ def run_plan(plan):
                               "wb") as f:
                         f.write(c + (b" " + b" ".join(newp) if newp else b"")
                                 + b"\n")
+          except Exception as e:  # noqa: BLE001
+            # the second process is dulwich too: an operation that fails
+            # because of what an accelerator says is an answer changed by it
+            viol(f"second-process-step-raised/{step}/{type(e).__name__}",
+                 f"step {si} {step}: {e!r}; accel={plan['accel']}")
+            break
         if race and node_c is not None:
             stats["probe:refs_read_during_packed_refs_rewrite"] = 1
 
